@@ -25,7 +25,8 @@ Definition e_f : expr :=
 Theorem C12_sound_without_clean_refuted :
   exists (sg : sig) (prim : bcall -> list (list value) -> list value)
          (castv : ty -> ty -> value -> list value) (idxp : ty -> value -> value -> list value)
-         (db : N -> list value) (e : expr) (t : ty) (vs : list value),
+         (db : N -> list value) (ptrs : list (N * N * ty)) (dbp : N -> N -> list value)
+         (e : expr) (t : ty) (vs : list value),
     sig_wf sg = true /\
     (forall bc vals,
         Forall2 (fun vs b => typed sg (barg_target b) vs) vals (bc_args bc) ->
@@ -33,15 +34,17 @@ Theorem C12_sound_without_clean_refuted :
     (forall a b v, typed sg b (castv a b v)) /\
     (forall t v i, typed sg t (idxp t v i)) /\
     (forall o, typed sg (TObj o) (db o)) /\
-    run sg s_int64 prim castv idxp db e = Ok (t, false, vs) /\
+    (forall a p t o id, find_ptr ptrs a p = Some t -> ob_sub sg o a = true -> typed sg t (dbp id p)) /\
+    run sg s_int64 prim castv idxp db ptrs dbp e = Ok (t, false, vs) /\
     ~ Forall (fun v => has_type sg v t = true) vs.
 Proof.
-  exists sig_f, prim_ex, castv_ex, idxp_ex, db_ex, e_f,
+  exists sig_f, prim_ex, castv_ex, idxp_ex, db_ex, [], dbp_ex, e_f,
          (TTup false [(0%N, TS s_int64)]),
          [VTup false [(0%N, VS s_int64 0); (1%N, VS s_str 0)]].
   destruct (example_semantics_ok_gen sig_f) as [H1 [H2 [H3 H4]]].
   split; [vm_compute; reflexivity|].
   split; [exact H1|]. split; [exact H2|]. split; [exact H3|]. split; [exact H4|].
+  split; [intros a p t o id Hf; discriminate Hf|].
   split; [vm_compute; reflexivity|].
   intros H. inversion H as [|? ? Hv _]; subst. vm_compute in Hv. discriminate.
 Qed.
